@@ -1312,6 +1312,20 @@ fn disagree(got: &Rec, want: &Rec, op: &Op) -> Option<String> {
         }
         return Some(format!("result: {} but a shared vector gives {}", got.out, want.out));
     }
+    // `capacity` is the one result a vector's contents do not determine, but asking twice
+    // without a mutation in between gives one answer: the number the call returned (from a
+    // script: through the `capacity` binding) against the capacity the same list reports to
+    // the observation right after it (Rust API)
+    if let Op::Capacity(h) = op {
+        let said = got.out.strip_prefix('n').and_then(|s| s.parse::<u64>().ok());
+        if let (Some(c), Some(Some((_, Some(gc), _)))) = (said, got.slots.get(*h)) {
+            if c != *gc {
+                return Some(format!(
+                    "result: capacity() returns {c}, asked again right after (no mutation in between) the same list reports {gc}"
+                ));
+            }
+        }
+    }
     for (h, (g, w)) in got.slots.iter().zip(&want.slots).enumerate() {
         match (g, w) {
             (None, None) => {}
